@@ -3,9 +3,16 @@ package cert
 // Harness tests of /verif, injected with go test -overlay (never written into the repository).
 
 import (
+	"crypto/ecdsa"
+	"crypto/elliptic"
+	"crypto/sha1"
+	"crypto/x509/pkix"
 	"encoding/asn1"
 	"fmt"
+	"math/big"
 	"testing"
+
+	"github.com/keybase/go-crypto/brainpool"
 )
 
 // TestVerifFindingPathLenZero shows the known finding of C07 on the real code: a CA certificate configured with
@@ -405,4 +412,82 @@ type pkixExt struct {
 	Id       asn1.ObjectIdentifier
 	Critical bool
 	Value    []byte
+}
+
+// TestVerifBoundedKeyIds: subject and authority key identifiers are SHA-1 of the subject's / the issuer's public key
+// bits, whatever the names are (equal or different DNs, self-signed or not), for key bit strings of several lengths.
+func TestVerifBoundedKeyIds(t *testing.T) {
+	n := 0
+	sha := func(b []byte) []byte { h := sha1.Sum(b); return h[:] }
+	names := []pkix.RDNSequence{nil, {{{Type: asn1.ObjectIdentifier{2, 5, 4, 3}, Value: "A"}}}, {{{Type: asn1.ObjectIdentifier{2, 5, 4, 3}, Value: "B"}}}}
+	keys := [][]byte{{1}, {1, 2, 3}, make([]byte, 65), {0xff, 0x00, 0xff}}
+	for _, subj := range names {
+		for _, iss := range names {
+			for _, own := range keys {
+				for _, ik := range keys {
+					n++
+					ctx := &CertificateContext{TbsCertificate: &TbsCertificate{Subject: subj}, Issuer: &IssuerContext{IssuerDn: iss, PublicKeyRaw: ik}}
+					ctx.TbsCertificate.PublicKey.PublicKey.Bytes = own
+					ski, err := NewSubjectKeyIdentifier(false, ctx)
+					if err != nil {
+						fmt.Printf("VERIF-BOUNDED: violation subjectKeyIdentifier: %v\n", err)
+						return
+					}
+					v, err := vfOne(ski.Value)
+					if err != nil || v.Tag != 4 || string(v.Bytes) != string(sha(own)) || ski.Id.String() != "2.5.29.14" {
+						fmt.Printf("VERIF-BOUNDED: violation subjectKeyIdentifier % x is not SHA-1 of the subject key bits % x\n", ski.Value, own)
+						return
+					}
+					aki, err := NewAuthorityKeyIdentifierHash(true, ctx)
+					if err != nil {
+						fmt.Printf("VERIF-BOUNDED: violation authorityKeyIdentifier: %v\n", err)
+						return
+					}
+					v, err = vfOne(aki.Value)
+					parts, err2 := vfSeq(v.Bytes)
+					if err != nil || err2 != nil || len(parts) != 1 || parts[0].Class != 2 || parts[0].Tag != 0 || string(parts[0].Bytes) != string(sha(ik)) || !aki.Critical || aki.Id.String() != "2.5.29.35" {
+						fmt.Printf("VERIF-BOUNDED: violation authorityKeyIdentifier % x is not SHA-1 of the issuer key bits % x (subject DN %v, issuer DN %v, subject key % x)\n", aki.Value, ik, subj, iss, own)
+						return
+					}
+				}
+			}
+		}
+	}
+	fmt.Printf("VERIF-BOUNDED: ok cases=%d\n", n)
+}
+
+// TestVerifBoundedKeyRoundTrip: for all ten curves and the boundary scalars of C17 (1, 2, n-2, n-1, values with leading
+// zero bytes) a key built directly on the curve implementation is written to PKCS#8 and read back as the same key.
+func TestVerifBoundedKeyRoundTrip(t *testing.T) {
+	n := 0
+	cs := map[string]elliptic.Curve{"P-224": elliptic.P224(), "P-256": elliptic.P256(), "P-384": elliptic.P384(), "P-521": elliptic.P521(),
+		"brainpoolP256r1": brainpool.P256r1(), "brainpoolP384r1": brainpool.P384r1(), "brainpoolP512r1": brainpool.P512r1(),
+		"brainpoolP256t1": brainpool.P256t1(), "brainpoolP384t1": brainpool.P384t1(), "brainpoolP512t1": brainpool.P512t1()}
+	for name, c := range cs {
+		N := c.Params().N
+		scalars := []*big.Int{big.NewInt(1), big.NewInt(2), new(big.Int).Sub(N, big.NewInt(2)), new(big.Int).Sub(N, big.NewInt(1)),
+			big.NewInt(255), new(big.Int).Rsh(N, 9), new(big.Int).Rsh(N, 17)}
+		for _, d := range scalars {
+			n++
+			k := &ecdsa.PrivateKey{D: d}
+			k.Curve = c
+			k.X, k.Y = c.ScalarBaseMult(d.Bytes())
+			der, err := MarshalPKCS8PrivateKey(k)
+			if err != nil {
+				fmt.Printf("VERIF-BOUNDED: violation %s d=%v: cannot be written: %v\n", name, d, err)
+				return
+			}
+			back, err := ParsePKCS8PrivateKey(der)
+			if err != nil {
+				fmt.Printf("VERIF-BOUNDED: violation %s d=%v: written key is not read back: %v\n", name, d, err)
+				return
+			}
+			b, ok := back.(*ecdsa.PrivateKey)
+			if !ok || b.D.Cmp(d) != 0 || b.X.Cmp(k.X) != 0 || b.Y.Cmp(k.Y) != 0 || b.Curve.Params().Name != c.Params().Name || b.Curve.Params().N.Cmp(N) != 0 || b.Curve.Params().B.Cmp(c.Params().B) != 0 || b.Curve.Params().Gx.Cmp(c.Params().Gx) != 0 {
+				fmt.Printf("VERIF-BOUNDED: violation %s d=%v: read back as a different key (%T)\n", name, d, back)
+				return
+			}
+		}
+	}
+	fmt.Printf("VERIF-BOUNDED: ok cases=%d\n", n)
 }
